@@ -53,7 +53,7 @@ BOX = [[0, 0, "line"], [80, 0, "line"], [80, 90, "line"], [0, 90, "line"]]
 def gen(rng, idx, tier):
     r = rng.random()
     stratum = "default"
-    if r < 0.06:
+    if r < 0.09:
         stratum = "variable"
     n = rng.randint(2, 10)
     names = rng.sample(BASES, n)
@@ -160,6 +160,7 @@ def gen(rng, idx, tier):
         lib["com.github.googlei18n.ufo2ft.keepGlyphNames"] = rng.random() < 0.5
     fmt = rng.choice(["ttf", "cff", "cff2"])
     return {"stratum": stratum, "fmt": fmt, "lib": rng.choice(["defcon", "ufoLib2"]),
+            "vf_sub_range": stratum == "variable" and rng.random() < 0.5,
             "ufo": {"glyphs": specs, "kerning": kerning, "features": features, "lib": lib,
                     "info": {"unitsPerEm": 1000, "familyName": "T", "styleName": "R"}}}
 
@@ -260,8 +261,30 @@ def compile_one(case, names, doc_lib=None):
               "ufos": [spec, _bold(spec)],
               "sources": [{"ufo": 0, "location": {"Weight": 400}, "name": "m0"},
                           {"ufo": 1, "location": {"Weight": 700}, "name": "m1"}]}
+        if case.get("vf_sub_range"):
+            # the designspace default is a THIRD master (Weight 100) with names and switches of
+            # its own; the variable font covers 400..700 with its default at 400: its names come
+            # from ITS default source (the judged font), not from the designspace default
+            import copy
+            light = _bold(spec)
+            light["info"]["styleName"] = "L"
+            light["lib"] = copy.deepcopy(spec["lib"])
+            light["lib"]["public.postscriptNames"] = {
+                g["name"]: "decoy%d" % i for i, g in enumerate(spec["glyphs"]) if g["name"] != ".notdef"}
+            for k in ("com.github.googlei18n.ufo2ft.useProductionNames",
+                      "com.schriftgestaltung.Don't use Production Names",
+                      "com.github.googlei18n.ufo2ft.keepGlyphNames"):
+                light["lib"].pop(k, None)
+            ds["axes"][0].update({"min": 100, "default": 100})
+            ds["ufos"].append(light)
+            ds["sources"].insert(0, {"ufo": 2, "location": {"Weight": 100}, "name": "m_light"})
+            ds["variableFonts"] = [{"name": "Sub", "axisSubsets": [
+                {"name": "Weight", "range": [400, 400, 700]}]}]
         doc, _ = build_designspace(ds, case["lib"])
-        if case["fmt"] == "ttf":
+        if case.get("vf_sub_range"):
+            f = ufo2ft.compileVariableTTFs if case["fmt"] == "ttf" else ufo2ft.compileVariableCFF2s
+            tt = f(doc, **kw)["Sub"]
+        elif case["fmt"] == "ttf":
             tt = ufo2ft.compileVariableTTF(doc, **kw)
         else:
             tt = ufo2ft.compileVariableCFF2(doc, **kw)
@@ -334,6 +357,8 @@ def run(case):
     for mode, (data, tt) in results.items():
         if mode is None:
             bump("lib_default_compiles")
+        if case.get("vf_sub_range"):
+            bump("variable_fonts_with_own_default_source")
         # names are absent from the font only when 'post' is format 3 AND there is no CFF 1
         # charset (CFF 1 fonts always have a format 3 'post': their names live in the charset)
         post3 = "post" in tt and tt["post"].formatType == 3.0 and "CFF " not in tt
